@@ -181,6 +181,8 @@ func (r *replicator) Load(ctx context.Context, entries []ipfslog.Entry) {
 			continue
 		}
 
+		verifhook.Point("replemit.added", entry)
+
 		// signal that we add an entry to the queue
 		if err := r.emitters.evtLoadAdded.Emit(NewEventLoadAdded(entry.GetHash(), entry)); err != nil {
 			r.logger.Warn("unable to emit event load added", zap.Error(err))
@@ -285,6 +287,8 @@ func (r *replicator) processHash(ctx context.Context, item processItem) ([]cid.C
 			if entry == nil {
 				return
 			}
+
+			verifhook.Point("replemit.progress", entry)
 
 			if err := r.emitters.evtLoadProgress.Emit(NewEventLoadProgress(entry)); err != nil {
 				r.logger.Warn("unable to emit event load progress", zap.Error(err))
@@ -511,6 +515,8 @@ func (r *replicator) idle() {
 	}
 
 	if len(r.buffer) > 0 {
+		verifhook.Point("replemit.end", nil)
+
 		if err := r.emitters.evtLoadEnd.Emit(NewEventLoadEnd(r.buffer)); err != nil {
 			r.logger.Warn("unable to emit event load end", zap.Error(err))
 		}
